@@ -17,6 +17,11 @@ CHECKS = {
   note="Kernel-checked for the runtime helpers; `len as i64` assumes < 2^63 elements. Tie: exhaustive small grids + extremes in every position + random, against the real stdlib/core functions; oracle: CPython itself. dict_get KeyError text: tie + oracle only.",
   technique="Lean 4 proof (Int64 loops refine unbounded-integer reference, simulation relation under saturation) + correspondence + CPython oracle",
   ref="C05"),
+ "C07": dict(
+  text="Lean 4 theorems by structural induction over numeric expression trees of any depth (int/float literals, typed variables, unary minus, parentheses, all 13 arithmetic/comparison operators): the checker's type, the IR type assigned by lowering, and the Rust type of the shape the emitter produces (helper call / method / infix with the planned conversions) all equal the documented table; the emitter's IR-based exponent classification equals the checker's AST-based one; `x: int = a / b` is always rejected; an accepted annotated binding never changes numeric kind. The finite policy table is proved entry by entry and also compared exhaustively with the real functions.",
+  note="Rust typing of emitted shapes is a model (helper signatures, i64::pow, f64::powf); rustc is not run here. Tie: real parser -> TypeChecker expr_types, AstLowering IR types, determine_binop_plan, on exhaustive depth<=2 grids + random depth<=6; binding positions let/return/compound proved+tied, `argument` is a recorded finding (arguments are not type-checked).",
+  technique="Lean 4 proof (structural induction over expression trees; finite table by cases) + correspondence with checker/lowering/emit-plan + documented-table oracle",
+  ref="C07"),
  "C19": dict(
   text="Lean 4 theorems over all documents (List Char, no length bound): offset->position->offset round trip on every character boundary, strict monotonicity, agreement with counting newlines/characters, span_to_range well-formed and inside the document for every pair of raw offsets (empty, reversed, past the end, inside a character), terminal line = editor line + 1; terminal column proved to be a byte count (partial: agrees with the character count when the line prefix is ASCII; counter-example kernel-checked and listed as a known finding).",
   note="u32/usize counters modelled as Nat; model tied to the real functions (and format_error rendering) by exhaustive small documents over a 6-character alphabet plus random documents.",
